@@ -46,7 +46,9 @@ CLAIMED["C09"] = (
     "Static must-sync analysis over all paths from every public entry point with a FermionicArray operand: block values of a "
     "possibly-lazy array are only used by sign-equivariant (key-preserving linear), sign-even, or phase-aware constructs, or "
     "after phase_sync on that array; every re-keying of blocks is mirrored on the sign table; signs are consumed exactly once, "
-    "by phase_sync only. Found and fixed two genuine defect groups (eigh/solve; reductions/unary maps/item/expm).",
+    "by phase_sync only. Found and fixed two genuine defect groups (eigh/solve; reductions/unary maps/item/expm). A bounded "
+    "complement by abstract evaluation (R09.5): every non-factorising operation of the C01 battery gives the same observable result on "
+    "a fermionic token array with pending signs and on its phase_sync()-ed twin (~3000 twin evaluations).",
     "Trusts the declared linear-algebra facts (QR/SVD commute with a sign on the left factor; abs is sign even; conj/transpose/"
     "reshape/slicing/scalar multiplication are linear) whose structural side conditions are checked, and numpydoc parameter types. "
     "Does not decide numerical equality itself.",
